@@ -389,7 +389,7 @@ func (g *G) Block(depth int) []*Node {
 		}
 		// never between a control block and its else branch / closing `- }`
 		// … and not directly after a `-#` comment, whose ignored region swallows following blank lines
-		if at == 0 || (out[at-1].Kind != KIf && out[at-1].Kind != KFor && out[at-1].Kind != KRubyComment) {
+		if at == 0 || !endsWithSwallower(out[at-1]) {
 			out = append(out[:at], append([]*Node{{Kind: KBlank}}, out[at:]...)...)
 		}
 	}
@@ -405,6 +405,21 @@ func (g *G) Block(depth int) []*Node {
 		out = append(out, &Node{Kind: KElem, Tag: "p", Inline: &Node{Kind: KText, Parts: []Part{{Static: "fallback"}}}})
 	}
 	return out
+}
+
+// endsWithSwallower: the last line of the node's subtree is one after which the lexer drops blank lines
+// (a `-#` comment swallows the blank lines that follow it, whatever their indentation; control blocks
+// as before)
+func endsWithSwallower(n *Node) bool {
+	switch n.Kind {
+	case KRubyComment, KIf, KFor:
+		return true
+	case KElem, KRender, KComment:
+		if len(n.Kids) > 0 {
+			return endsWithSwallower(n.Kids[len(n.Kids)-1])
+		}
+	}
+	return false
 }
 
 // GenFile builds a file with nLayouts layouts (may use @children, may render earlier layouts)
